@@ -138,6 +138,13 @@ def bases_changed(doc):
     for s in d["structures"]:
         if s["name"] in targets and not any(p["name"] == "evolvedBaseExtra" for p in s["properties"]):
             s["properties"].append({"name": "evolvedBaseExtra", "type": {"kind": "base", "name": "string"}, "optional": True})
+    # ... and every enumeration's supportsCustomValues flag flipped: what a generation remembers about an enumeration (by name)
+    # from an earlier model shows at every property that references it.  (This model is only ever generated, never imported.)
+    for e in d["enumerations"]:
+        if e.get("supportsCustomValues"):
+            e.pop("supportsCustomValues")
+        else:
+            e["supportsCustomValues"] = True
     return d
 
 
@@ -240,7 +247,7 @@ def main():
                         dg5 = digest(plugin, d5b)
                         diff = sorted(k for k in set(dg5) | set(ref) if dg5.get(k) != ref.get(k))[:4]
                         res.append((f"{plugin}|same-process", "output-depends-on-an-earlier-generation-in-the-same-process", "same owned files as a fresh-process run",
-                                    {"files_differing": diff}, {"same interpreter": ["model with every base/mixin structure given one more optional property", "the model"]}))
+                                    {"files_differing": diff}, {"same interpreter": ["model with every base/mixin structure given one more optional property and every enumeration's supportsCustomValues flipped", "the model"]}))
                     shutil.rmtree(d5a, ignore_errors=True); shutil.rmtree(d5b, ignore_errors=True)
                     d6 = tmp / f"{plugin}-other-fresh"
                     rc6, log6 = run(plugin, other, d6, seed)
@@ -252,7 +259,7 @@ def main():
                         a, b = digest(plugin, d5b), digest(plugin, d6)
                         diff = sorted(k for k in set(a) | set(b) if a.get(k) != b.get(k))[:4]
                         res.append((f"{plugin}|same-process", "output-depends-on-an-earlier-generation-in-the-same-process", "same owned files as a fresh-process run",
-                                    {"files_differing": diff}, {"same interpreter": ["the model", "model with every base/mixin structure given one more optional property"]}))
+                                    {"files_differing": diff}, {"same interpreter": ["the model", "model with every base/mixin structure given one more optional property and every enumeration's supportsCustomValues flipped"]}))
                     for x in (d5a, d5b, d6):
                         shutil.rmtree(x, ignore_errors=True)
                         shutil.rmtree(str(x) + "-tests", ignore_errors=True)
